@@ -18,7 +18,7 @@ peg::parser! {
       rule any() = [_]
       rule space() = [' ' | '\t' ]
       rule no_space() = [^ ' ' | '\t' ]
-      rule kana() -> String = n:$(['あ'..='ん' | 'ゐ' | 'ゃ' | 'ゅ' | 'ょ' | 'ぁ' | 'ぃ' | 'ぅ' | 'ぇ' | 'ぉ' | 'っ']) { n.to_string() }
+      rule kana() -> String = n:$(['あ'..='ん' | 'ゐ' | 'ゃ' | 'ゅ' | 'ょ' | 'ぁ' | 'ぃ' | 'ぅ' | 'ぇ' | 'ぉ' | 'っ' | 'ー' | 'a'..='z']) { n.to_string() }
       rule katakana() -> String = n:$(['ア' |'カ'| 'サ' | 'タ' |'ナ' | 'ハ'|'マ'|'ヤ'|'ワ' | 'ラ' | 'ダ' | 'バ' | 'ガ' | 'ザ']) { n.to_string() }
 
       rule noun() -> Speech = t:$("一般名詞" / "サ変名詞" / "固有名詞" ) {?
